@@ -8,6 +8,7 @@ uses that to steer a reader into the window a writer has just opened.
 """
 import os
 import threading
+import traceback
 
 from .world import SimCrash, SimAbort, HarnessError
 
@@ -52,11 +53,13 @@ class Scheduler:
             self.w.event(a, "actor-start", "", None)
             a.result = a.fn()
             self.w.event(a, "actor-end", "", None)
-        except SimCrash:
+        except SimCrash as e:
+            traceback.clear_frames(e.__traceback__)
             self.w.event(a, "actor-killed", "", None)
-        except SimAbort:
-            pass
+        except SimAbort as e:
+            traceback.clear_frames(e.__traceback__)
         except BaseException as e:  # delivered to the workload
+            traceback.clear_frames(e.__traceback__)  # see World._ActorCtx.__exit__
             a.exc = e
             self.w.event(a, "actor-raised", "", type(e).__name__)
         finally:
